@@ -106,7 +106,15 @@ def regression_scenarios():
                                                             [{'when': None, 'act': {'kind': 'real_set_opt', 'reset': True,
                                                                                      'opt': {'kind': 'sgd', 'lr': 0.125},
                                                                                      'cond': {'type': 'period', 'period': 3, 'offset': 1}}}]] + rec_cb}])
-    return [('known-F7-closure-novalid', f7, True), ('forced-tie', tie, True), ('real-SetLossFn-SetOptimizer', real, True)]
+    # the REAL MonitorCallback (MetricsMonitor, to_callback()) and ReportCallback watch a run whose losses are negative: they may
+    # change NOTHING of the solver
+    mon = dict(base, nbv=1, opt={'kind': 'sgd', 'lr': 0.25},
+               ops=[{'op': 'fit', 'max_epochs': 4, 'cbs': [[{'when': None, 'act': {'kind': 'real_monitor', 'which': 'to_callback', 'check_every': 2}}],
+                                                           [{'when': None, 'act': {'kind': 'real_monitor', 'which': 'metrics', 'check_every': 1,
+                                                                                    'cond': {'type': 'period', 'period': 1, 'offset': 0}}}],
+                                                           [{'when': None, 'act': {'kind': 'real_report', 'cond': {'type': 'first'}}}]] + rec_cb}])
+    return [('known-F7-closure-novalid', f7, True), ('forced-tie', tie, True), ('real-SetLossFn-SetOptimizer', real, True),
+            ('real-MonitorCallback', mon, True)]
 
 
 def main():
@@ -144,7 +152,8 @@ def main():
             continue
         tie = i % 3 != 2
         sc = T.gen_scenario(r, opt_kinds=('sgd', 'script', 'sgd'),
-                            cb_actions=('stop', 'set_loss', 'set_opt', 'set_theta', 'real_set_loss', 'real_set_opt', 'real_set_loss'),
+                            cb_actions=('stop', 'set_loss', 'set_opt', 'set_theta', 'real_set_loss', 'real_set_opt', 'real_set_loss')
+                            + (('real_monitor', 'real_report', 'real_stop', 'real_monitor') if i % 5 == 3 else ()),
                             between_actions=('set_theta', 'set_loss', 'set_opt') if i % 4 == 1 else (), nbv=nbv,
                             lids=(0, 1) if tie else (0, 1, 2, 3), tie=tie, max_epochs=(1, 6), nmetrics=(0, 1))
         rec = camp.add(f'exact#{i}', sc, exact=True)
